@@ -185,6 +185,10 @@ def read_message(data, pos, first=True, proxy_protocol=False):
     line = data[pos:eol]
     rl = REQLINE.fullmatch(line)
     if not rl:
+        if proxy_protocol and not first and line.startswith(b"PROXY "):
+            # a PROXY protocol line is connection preamble: after the first request it is just not a request line
+            m.verdict, m.reason = "R", "proxy-line-after-first-request"
+            return m
         m.verdict, m.reason = "NOREAD", "request-line-not-strict"
         return m
     m.method, m.target = rl.group(1), rl.group(2)
